@@ -34,12 +34,13 @@ type BoundedResult struct {
 	Ran        bool
 }
 
-var hdrRe = regexp.MustCompile(`(?m)^// (prop|tier|name|what|bound|sampled): (.*)$`)
+var hdrRe = regexp.MustCompile(`(?m)^// (prop|tier|name|what|bound|sampled|race): (.*)$`)
 
 func runBounded(w *World, prop, tier string, seed int, dir string) []*BoundedResult {
 	files, _ := filepath.Glob("/verif/bounded/*.go")
 	sort.Strings(files)
 	var sel []string
+	race := false
 	byName := map[string]*BoundedResult{}
 	var order []*BoundedResult
 	for _, f := range files {
@@ -64,6 +65,9 @@ func runBounded(w *World, prop, tier string, seed int, dir string) []*BoundedRes
 			continue
 		}
 		sel = append(sel, f)
+		if h["race"] == "true" {
+			race = true
+		}
 		for _, n := range strings.Fields(h["name"]) {
 			br := &BoundedResult{Name: "bounded:" + n, What: h["what"], Bound: h["bound"], Exhaustive: !hasProp(strings.Fields(h["sampled"]), n)}
 			byName[n] = br
@@ -75,6 +79,8 @@ func runBounded(w *World, prop, tier string, seed int, dir string) []*BoundedRes
 	}
 	os.Setenv("VERIF_SEED", strconv.Itoa(seed))
 	os.Setenv("VERIF_TIER", tier)
+	overlayRace = race
+	defer func() { overlayRace = false }()
 	_, out := runOverlayTests(w, []overlayTest{{Name: "VerifNoop", Body: "\t\tfmt.Println(\"VERIF-RESULT VerifNoop pass\")"}}, filepath.Join("/verif/out", prop, "bounded"), sel...)
 	for _, l := range strings.Split(out, "\n") {
 		l = strings.TrimSpace(l)
@@ -93,6 +99,11 @@ func runBounded(w *World, prop, tier string, seed int, dir string) []*BoundedRes
 					}
 				}
 			}
+		}
+	}
+	if race && strings.Contains(out, "WARNING: DATA RACE") {
+		for _, br := range order {
+			br.Failures = append(br.Failures, "the race detector reported a data race: "+firstLines(out[strings.Index(out, "WARNING: DATA RACE"):], 12))
 		}
 	}
 	for _, br := range order {
